@@ -19,7 +19,8 @@ IMPORTS = "From U2F Require Import Base.Prelude Geometry.Model Interp.Instance."
 RULE = ("two-master families (integer and fractional coordinates) instantiated at t in {0, 1/4, 1/2, 3/4, 1} with round_geometry "
         "on/off, both UFO libraries; per instance the vector of all coordinates, advances, anchor positions and kerning values is "
         "compared with the Gallina instance_at; random abstract fonts for swap_glyph_names (glyphs with components, kerning, "
-        "groups); MutatorSans fixture for rules. Non-trivial = interior location, or a swap touching components/kerning/groups.")
+        "groups); MutatorSans fixture for rules. Non-trivial = interior location, or a swap touching components/kerning/groups."
+        " Generated designspace rules (overlapping ranges, a sub listed by several rules, chains, a missing glyph): the instance equals the rule-free instance with the active substitutions -- determined independently -- applied in document order.")
 ASSUMPTIONS = ["IEEE evaluation of a + t(b-a) is exact for dyadic t and the generated coordinates"]
 
 FN_BLEND = ("fun c : (vec * vec * Qc * bool * vec) => let '(m0, m1, t, rnd, obs) := c in "
